@@ -12,6 +12,7 @@ mod blockprops;
 mod derive;
 mod drip;
 mod duts;
+mod e2e;
 mod eos;
 mod filesink;
 mod formats;
@@ -105,6 +106,7 @@ fn main() {
         }
         "c19" => derive::main(&opts),
         "c12" => blockprops::main(&opts, blockprops::Mode::C12),
+        "c20" => e2e::main(&opts),
         other => {
             eprintln!("unknown subcommand {other}");
             std::process::exit(64);
